@@ -365,6 +365,16 @@ def response_element(I, dptr):
         enc = ctx.concretize(fld(I, AT, da, 'Encrypt'), 0, 2, 'encrypt')
         if enc:
             ael = encrypted_assertion(I, ael, (0, 1 + enc))
+            rm = ctx.concretize(fld(I, AT, da, 'Retrieval'), 0, 3, 'retrieval')
+            if rm:
+                data = child_elements(I, ael)[0]
+                ki = new_el(I, 'ds:KeyInfo')
+                set_attr(I, ki, 'xmlns:ds', NS_DS)
+                m = new_el(I, 'ds:RetrievalMethod')
+                set_attr(I, m, 'Type', 'http://www.w3.org/2001/04/xmlenc#EncryptedKey')
+                set_attr(I, m, 'URI', ['#k1', "#'", '#k[1'][rm - 1])
+                add_child(I, ki, m)
+                add_child(I, data, ki)
         add_child(I, resp, ael)
     if sign_resp:
         # the Response signature is made over the complete element (assertions included)
@@ -397,6 +407,34 @@ def i_deflate(I, args, ins):
     return tag_bytes(I, ('deflate', info), 'deflated')
 
 
+@intrinsic('verifInflateSource')
+def i_inflate_source(I, args, ins):
+    """verifInflateSource(size): a reader over a deflate stream that inflates to `size` bytes."""
+    ctx = I.ctx
+    b = ctx.alloc(StructV([]), 'body')
+    ctx.ghost.setdefault('readers', {})[b.cell] = ('inflate-source', args[0])
+    return Iface('*verif.body', b)
+
+
+@intrinsic('verifReadMany')
+def i_read_many(I, args, ins):
+    """verifReadMany(r, bufLen, reads): `reads` successive Read calls with a buffer of bufLen bytes, stopping at the
+    first error; returns the bytes delivered in total."""
+    ctx = I.ctx
+    r, buflen, reads = ctx.force(args[0]), args[1], args[2]
+    reads = ctx.concretize(reads, 0, 8, 'reads')
+    total = 0
+    for i in range(reads):
+        base = ctx.alloc((), 'symlen')
+        p = Slice(base, 0, buflen, buflen)
+        res = I.invoke(r, 'Read', [p], ins)
+        n, err = res[0], ctx.force(res[1])
+        total = zint(total) + zint(n)
+        if err is not None:
+            break
+    return z3.simplify(total) if is_sym(total) else total
+
+
 @stub('compress/flate.NewReader')
 def flate_newreader(I, args, ins):
     from .base import reader_content
@@ -404,6 +442,9 @@ def flate_newreader(I, args, ins):
     kind, c = reader_content(I, args[0])
     p = ctx.alloc(StructV([]), 'flate.reader')
     src = None
+    if kind == 'inflate-source':
+        ctx.ghost.setdefault('flate', {})[p.cell] = ('inflate-source', c)
+        return Iface('*verif.flateReader', p)
     if kind == 'bytes':
         src = bytes_info(I, c)
     elif kind == 'string':
@@ -413,10 +454,16 @@ def flate_newreader(I, args, ins):
 
 
 def _flate_read(I, recv, args, ins):
-    """Read on an inflater: any 0 <= n <= len(p), any error (contract stub)."""
+    """Read on an inflater: any 0 <= n <= len(p), any error (contract stub); an inflater over a
+    verifInflateSource(size) delivers at most size bytes in total."""
     ctx = I.ctx
     n = ctx.fresh_int('flate.n')
     ctx.add_inv(z3.And(n >= 0, n <= zint(I.length(args[0]))))
+    src = ctx.ghost.get('flate', {}).get(recv.cell) if isinstance(recv, Ptr) else None
+    if src is not None and src[0] == 'inflate-source':
+        done = ctx.ghost.setdefault('flate_delivered', {}).get(recv.cell, 0)
+        ctx.add_inv(zint(done) + n <= zint(src[1]))
+        ctx.ghost['flate_delivered'][recv.cell] = zint(done) + n
     if ctx.choose(2, 'flate-err') == 1:
         return TupleV((n, ctx.new_error('flate')))
     return TupleV((n, None))
